@@ -73,6 +73,28 @@ Proof. apply integral_finite. Qed.
 Definition fmax (k : skind) : Z :=
   match k with KInt | KInt64 => two63 | KUint | KUint64 => two64 | _ => int_max k end.
 
+(* ---------- the generated model equals the audited reference ----------
+   conv_f64 / conv_i64 interpret the clause tables srcgen extracts from converter.go on every run
+   (Gen/Bounds.v); conv_f64_ref / conv_i64_ref are the hand-written transcriptions the proofs below
+   were developed against.  These two lemmas are where a change of a range constant, a comparison
+   operator, the order of the guards or the conversion operand in the SOURCE breaks the proofs. *)
+Lemma conv_f64_gen k b : conv_f64 k b = conv_f64_ref k b.
+Proof.
+  destruct k; try reflexivity; unfold conv_f64, conv_f64_ref;
+  cbn -[f64_of_bits is_integral to_Z Bltb f64c f64_to_int_amd64 Babs f64_to_f32 bits_of_f32];
+  repeat match goal with |- context [if ?c then _ else _] => destruct c; cbn [orb negb] end; reflexivity.
+Qed.
+Lemma conv_i64_gen k z : conv_i64 k z = conv_i64_ref k z.
+Proof.
+  destruct k; try reflexivity; unfold conv_i64, conv_i64_ref;
+  cbn -[Z.ltb Z.gtb Z.eqb Z.modulo f32_to_i64_amd64 i64_to_f32 bits_of_f32 bits_of_f64 i64_to_f64 two64];
+  try (destruct (z <? 0) eqn:?; cbn [orb negb]; [reflexivity|]);
+  repeat match goal with |- context [if ?c then _ else _] => destruct c eqn:?; cbn [orb negb] end; try reflexivity;
+  repeat match goal with H : context [?a - 1] |- _ => let v := eval vm_compute in (a - 1) in change (a - 1) with v in H end;
+  try congruence.
+  all: cbn [negb] in *; congruence.
+Qed.
+
 Lemma c_min k : is_signed k = true -> B2R (f64c (int_min k)) = IZR (int_min k) /\ is_finite (f64c (int_min k)) = true.
 Proof. destruct k; try discriminate; intros _; (split; [apply c_eval|]; vm_compute; reflexivity). Qed.
 Lemma c_max k : (is_signed k || is_unsigned k) = true -> B2R (f64c (int_max k)) = IZR (fmax k) /\ is_finite (f64c (int_max k)) = true.
@@ -95,7 +117,7 @@ Lemma conv_f64_int_spec k bits : is_int_kind k = true ->
   if is_integral f && (int_min k <=? to_Z f) && (to_Z f <=? fmax k)
   then Some (SInt (f64_to_int_amd64 k (to_Z f))) else None.
 Proof.
-  intros Hk. unfold conv_f64. cbv zeta. set (f := f64_of_bits bits).
+  intros Hk. rewrite conv_f64_gen; unfold conv_f64_ref. cbv zeta. set (f := f64_of_bits bits).
   destruct (is_integral f) eqn:Hi; cbn [negb andb].
   2:{ unfold is_int_kind in Hk. destruct (is_signed k); [reflexivity|]. destruct (is_unsigned k); [reflexivity|discriminate]. }
   pose proof (to_Z_correct f Hi) as Hz. pose proof (integral_finite f Hi) as Hf.
@@ -247,7 +269,7 @@ Qed.
 Lemma i64_to_int_exact_complete k z z' : is_int_kind k = true ->
   (conv_i64 k z = Some (SInt z') <-> z' = z /\ int_min k <= z <= int_max k).
 Proof.
-  intros Hk. unfold conv_i64. unfold is_int_kind in Hk.
+  intros Hk. rewrite conv_i64_gen; unfold conv_i64_ref. unfold is_int_kind in Hk.
   destruct (is_signed k) eqn:Hs.
   - rewrite Z.gtb_ltb.
     destruct (Z.ltb_spec z (int_min k)), (Z.ltb_spec (int_max k) z); cbn [orb]; split; intros H';
@@ -262,7 +284,7 @@ Qed.
 
 Lemma i64_to_int_shape k z : is_int_kind k = true -> conv_i64 k z = None \/ conv_i64 k z = Some (SInt z).
 Proof.
-  intros Hk. unfold conv_i64. unfold is_int_kind in Hk.
+  intros Hk. rewrite conv_i64_gen; unfold conv_i64_ref. unfold is_int_kind in Hk.
   destruct (is_signed k).
   - destruct ((z <? int_min k) || (z >? int_max k)); auto.
   - cbn [orb] in Hk. rewrite Hk. destruct (z <? 0); auto. destruct (z >? int_max k); auto.
@@ -334,7 +356,7 @@ Lemma conv_f64_f32_spec bits :
   | _ => if Rlt_bool (IZR max_float32_Z) (Rabs (B2R f)) then None else Some (SF32 (bits_of_f32 (f64_to_f32 f)))
   end.
 Proof.
-  cbv zeta. unfold conv_f64. cbn [is_signed is_unsigned].
+  cbv zeta. rewrite conv_f64_gen; unfold conv_f64_ref. cbn [is_signed is_unsigned].
   destruct maxf_props as [Mf Mv]. set (mx := f64_of_bits max_float32_bits64) in *.
   destruct (f64_of_bits bits) as [s| s | | s m e He] eqn:E.
   - rewrite Bltb_correct by (try assumption; reflexivity). rewrite Mv, B2R_Babs. reflexivity.
@@ -806,7 +828,7 @@ Lemma i64_to_f32_lossless z : - two63 <= z < two63 ->
   (~ generic_format radix2 fexp32 (IZR z) -> conv_i64 KFloat32 z = None).
 Proof.
   intros Hz. destruct (i64_to_f32_correct z ltac:(lia)) as [Hf [Hv _]].
-  unfold conv_i64. cbn [is_signed is_unsigned]. cbv zeta.
+  rewrite conv_i64_gen; unfold conv_i64_ref. cbn [is_signed is_unsigned]. cbv zeta.
   set (g := i64_to_f32 z) in *. split.
   - intros Hfmt.
     assert (Hg : B2R g = IZR z).
@@ -842,7 +864,7 @@ Proof.
   destruct sv as [b|s|z|b|b]; cbn [opt_bscalar option_map]; rewrite ?Hk, ?skind_eqb_refl; try reflexivity.
   - (* SInt *)
     destruct (N.eqb (s_id vt) 6); [|reflexivity].
-    apply skind_eqb_eq in O2. rewrite O2. unfold conv_i64. cbn [is_signed].
+    apply skind_eqb_eq in O2. rewrite O2. rewrite conv_i64_gen; unfold conv_i64_ref. cbn [is_signed].
     destruct ((z <? int_min KInt64) || (z >? int_max KInt64)); reflexivity.
   - (* SF64 *)
     destruct (N.eqb (s_id vt) 13); [|reflexivity].
@@ -1195,7 +1217,7 @@ Proof.
   - unfold spec_f64. rewrite Hk. exact Hdec.
   - unfold spec_f64. rewrite Hk. exact Hdec.
   - rewrite <- Hk. now apply f64_f32_case.
-  - unfold spec_f64. rewrite Hk. cbn [is_int_kind is_signed is_unsigned orb conv_f64]. apply agrees_bind.
+  - unfold spec_f64. rewrite Hk. rewrite conv_f64_gen. cbn [is_int_kind is_signed is_unsigned orb conv_f64_ref]. apply agrees_bind.
 Qed.
 
 Lemma i64_case t src z :
@@ -1232,7 +1254,7 @@ Proof.
         apply generic_format_abs in Hfmt. apply Hfit in Hfmt. discriminate.
     + (* float64 *)
       destruct (i64_to_f64_correct z ltac:(lia)) as [G1 [G2 G3]].
-      unfold conv_i64. cbn [is_signed is_unsigned].
+      rewrite conv_i64_gen; unfold conv_i64_ref. cbn [is_signed is_unsigned].
       apply agrees_round64; try assumption; [lia|].
       rewrite G2. f_equal. change (bpow radix2 0) with 1%R. rewrite Rmult_1_r.
       destruct (Z.ltb_spec z 0).
